@@ -394,9 +394,26 @@ pub fn dispatch(m: usize, input: &[char], start: u8, prepeek: bool, script: Vec<
                     bad[i] = e
         return bad
 
-    def native_run(self, lines, timeout=300):
-        code, out, err = run([self.drv], input='\n'.join(lines) + '\n', timeout=timeout)
-        return [l for l in out.split('\n') if l != '']
+    def native_run(self, lines, timeout=120):
+        """one output line per driver line; a line on which the natively compiled lexer does not come back is answered
+        with 'HANG' (found by running the lines one by one under a short limit after the batch timed out)"""
+        import subprocess
+        from concurrent.futures import ThreadPoolExecutor
+        try:
+            code, out, err = run([self.drv], input='\n'.join(lines) + '\n', timeout=timeout)
+            return [l for l in out.split('\n') if l != '']
+        except subprocess.TimeoutExpired:
+            pass
+
+        def one(l):
+            try:
+                code, out, err = run([self.drv], input=l + '\n', timeout=10)
+                o = [x for x in out.split('\n') if x != '']
+                return o[0] if o else 'NOOUTPUT'
+            except subprocess.TimeoutExpired:
+                return 'HANG'
+        with ThreadPoolExecutor(max_workers=8) as pool:
+            return list(pool.map(one, lines))
 
     def builtin_ranges(self):
         cache = os.path.join(self.dir, 'builtin_ranges.json')
